@@ -253,18 +253,18 @@ theorem sideTooLong_mono {b k : Bytes} (h : sideTooLong b k true = false) : side
   simp only [Bool.false_eq_true, if_false, decide_eq_false_iff_not, Nat.not_lt]
   omega
 
-/-- what must hold for an owner's `complete_multipart_upload` that passes validation to be compared with the store: the
-    bucket exists [fs:complete-into-missing-bucket] and the key's path is free; side-file names fit. (Since 47e9b00 the
-    metadata and the checksums of the object it replaces do not matter: they are replaced too; before:
-    fs:stale-metadata-after-complete, fs:stale-checksum-after-complete.) -/
+/-- what must hold for an owner's `complete_multipart_upload` that passes validation to be compared with the store: when the
+    bucket exists, the key's path is free and the side-file names fit. A bucket that no longer exists is inside: both sides
+    answer `NoSuchBucket` and change nothing (9bdb75f; before, the backend wrote the object and so recreated the bucket
+    directory: fs:complete-into-missing-bucket). (Since 47e9b00 the metadata and the checksums of the object it replaces do
+    not matter: they are replaced too; before: fs:stale-metadata-after-complete, fs:stale-checksum-after-complete.) -/
 def CompleteSuccessOk (s : State) (b k : Bytes) (_id : Nat) : Prop :=
-  sideTooLong b k true = false ∧
-  (match keyPath k with
-    | none => False
-    | some p =>
-      match s.tree b with
-      | none => False
-      | some t => WriteOk t p)
+  match keyPath k with
+  | none => False
+  | some p =>
+    match s.tree b with
+    | none => True
+    | some t => sideTooLong b k true = false ∧ WriteOk t p
 
 /-- what must hold for the owner's `complete_multipart_upload` to be compared with the store: the part list is
     `1, 2, …, m` [else fs:complete-requires-consecutive-parts, fs:complete-part-list-validation]; the names are admissible
@@ -467,15 +467,29 @@ theorem complete_refines (H : Hashes) (dl : Nat) {s : State} (hi : Inv s) {who :
                   exact ⟨rfl, rfl, hi⟩
                 | true =>
                   rw [hsz] at hts
-                  obtain ⟨hshort, hpath⟩ := hrest hsz
-                  have hshort' := sideTooLong_mono hshort
+                  have hpath := hrest hsz
+                  unfold CompleteSuccessOk at hpath
                   rw [hkp] at hpath
                   simp only at hpath
                   cases ht : s.tree b with
-                  | none => rw [ht] at hpath; exact absurd hpath (by simp)
+                  | none =>
+                    -- the bucket no longer exists: `NoSuchBucket` on both sides, nothing changes
+                    have hno : alHas b s.buckets = false := by unfold State.tree at ht; simp [alHas, ht]
+                    have hno' : alHas b (abs s).buckets = false := by rw [abs_alHas]; exact hno
+                    have hstep : step H dl s (.completeMultipartUpload who b k (some id) (some (o :: t))) =
+                        (s, .err .NoSuchBucket) := by
+                      simp [step, State.verify, hl, hown, objPath, hbd, hkp, hm, hts, hno]
+                    have hspec : StoreSpec.step H (abs s) (.completeMultipartUpload who b k (some id) (some (o :: t))) =
+                        (abs s, .err .NoSuchBucket) := by
+                      simp [StoreSpec.step, hup, hown', hs1, hs2, hpp, hs4', hsz, hno']
+                    rw [hstep, hspec]
+                    exact ⟨rfl, rfl, hi⟩
                   | some tr =>
                     rw [ht] at hpath
                     simp only at hpath
+                    obtain ⟨hshort, hpath⟩ := hpath
+                    have hshort' := sideTooLong_mono hshort
+                    have hyes : alHas b s.buckets = true := by unfold State.tree at ht; simp [alHas, ht]
                     have hp : PathOk p := keyPath_pathOk hkp
                     have hmem := tree_mem ht
                     have her : Erased id s.parts (eraseParts id ((numbered 0 cs).map (·.1)) s.parts) :=
@@ -498,7 +512,7 @@ theorem complete_refines (H : Hashes) (dl : Nat) {s : State} (hi : Inv s) {who :
                                     parts := eraseParts id ((numbered 0 cs).map (·.1)) s.parts,
                                     uploads := alErase id s.uploads },
                             .completed (some (etagOf H cs.flatten))) := by
-                        simp [step, State.verify, hl, hown, hshort, hshort', hum, objPath, hbd, hkp, hm, hts, hcont, hcommit]
+                        simp [step, State.verify, hl, hown, hshort, hshort', hum, objPath, hbd, hkp, hm, hts, hyes, hcont, hcommit]
                       rw [hstep, hspec]
                       obtain ⟨h1, h2⟩ := complete_core (s' := { s with buckets := alInsert b (alInsert p (.file cs.flatten) (tr ++ ds)) s.buckets, metas := alErase (b, k) s.metas, infos := alInsert (b, k) {} s.infos, parts := eraseParts id ((numbered 0 cs).map (·.1)) s.parts, uploads := alErase id s.uploads })
                         hi hl hub huk ht hp hcanon hpath.2 hds hnd her rfl (by rw [hum]; rfl) (by rw [hum]; rfl)
@@ -512,7 +526,7 @@ theorem complete_refines (H : Hashes) (dl : Nat) {s : State} (hi : Inv s) {who :
                                     parts := eraseParts id ((numbered 0 cs).map (·.1)) s.parts,
                                     uploads := alErase id s.uploads },
                             .completed (some (etagOf H cs.flatten))) := by
-                        simp [step, State.verify, hl, hown, hshort, hshort', hum, objPath, hbd, hkp, hm, hts, hcont, hcommit]
+                        simp [step, State.verify, hl, hown, hshort, hshort', hum, objPath, hbd, hkp, hm, hts, hyes, hcont, hcommit]
                       rw [hstep, hspec]
                       obtain ⟨h1, h2⟩ := complete_core (s' := { s with buckets := alInsert b (alInsert p (.file cs.flatten) (tr ++ ds)) s.buckets, metas := alInsert (b, k) (.good m) s.metas, upMetas := alErase (b, k, id) s.upMetas, infos := alInsert (b, k) {} s.infos, parts := eraseParts id ((numbered 0 cs).map (·.1)) s.parts, uploads := alErase id s.uploads })
                         hi hl hub huk ht hp hcanon hpath.2 hds hnd her rfl (by rw [hum]; rfl) (by rw [hum]; rfl)
